@@ -965,6 +965,34 @@ func fmtMap(m map[string]int) string {
 	return sb.String()
 }
 
+// how many message types linked into this binary declare a field (or have a
+// registered extension) with the checksum's field number?  For such a type the
+// checksum would not be an *unknown* field.
+func scanRegistry() (types, declaring, extensions int) {
+	var walk func(mds protoreflect.MessageDescriptors)
+	walk = func(mds protoreflect.MessageDescriptors) {
+		for i := 0; i < mds.Len(); i++ {
+			md := mds.Get(i)
+			types++
+			if md.Fields().ByNumber(checksumField) != nil {
+				declaring++
+			}
+			walk(md.Messages())
+		}
+	}
+	protoregistry.GlobalFiles.RangeFiles(func(fd protoreflect.FileDescriptor) bool {
+		walk(fd.Messages())
+		return true
+	})
+	protoregistry.GlobalTypes.RangeExtensions(func(xt protoreflect.ExtensionType) bool {
+		if xt.TypeDescriptor().Number() == checksumField {
+			extensions++
+		}
+		return true
+	})
+	return
+}
+
 func TestVerifCodec(t *testing.T) {
 	out := os.Getenv("VERIF_OUT")
 	if out == "" {
@@ -1029,6 +1057,8 @@ func TestVerifCodec(t *testing.T) {
 			r.runErr(name, arg)
 		}
 	}
+	nt, nd, nx := scanRegistry()
+	r.st.outcomes[fmt.Sprintf("registry:message-types=%d,declaring-field-%d=%d,extensions-numbered-%d", nt, checksumField, nd, checksumField)] = nx
 	dist := fmt.Sprintf("kinds: %s | types: %s | inner sizes: %s | features: %s | outcomes: %s",
 		fmtMap(r.st.kinds), fmtMap(r.st.types), fmtMap(r.st.sizes), fmtMap(r.st.feats), fmtMap(r.st.outcomes))
 	fmt.Fprintln(os.Stderr, dist)
